@@ -195,8 +195,11 @@ Fixpoint longs_of (bs : list N) : list N :=
   | _ => []
   end.
 
-(* ReadFrom.  The loop `for i := range b.data { v.ReadFrom(r) }` issues Len io.ReadFull calls of 8
-   bytes; they are fused into one ReadFull of 8*Len bytes (same result under run_flat and
+(* ReadFrom.  The loop `for i := 0; i < int(Len); i++ { ...; v.ReadFrom(r); b.data[i] = uint64(v) }` issues Len
+   io.ReadFull calls of 8 bytes (since repo fix 9c9d934 a destination that is too small is allocated
+   min(Len, 1024) longs first and at most doubles as the longs arrive - same longs, same length on success;
+   the allocation rule is stated on the translated code, Props/C11.v C11_read_alloc_bounded); they are fused
+   into one ReadFull of 8*Len bytes (same result under run_flat and
    run_chunked: each is all-or-error and an error carries no count here), so that a hostile
    count never becomes a unary number.  On an error the Go object is left partly overwritten;
    that state is not modelled (Fail carries no state).  Only `data` is assigned. *)
